@@ -859,8 +859,24 @@ func (f *Frame) applyContract(p callPlan, args []Val, st *State, reach Term, whe
 			cm = "int"
 		}
 		if cm != c.mode {
-			c.oblige("error", fmt.Sprintf("%s#call:%s", shortFn(f.fn), p.name), reach, tFalse,
-				fmt.Sprintf("contract of %s is written for arith %s, caller uses %s", p.name, fc.Arith, c.mode))
+			// A function verified under `arith int-assumed` already assumes that no machine
+			// arithmetic overflows; under that same (recorded) assumption a contract proved
+			// over bit vectors reads the same over the integers, and vice versa. Only exact
+			// `int` contracts stay strict.
+			root := f
+			for root.parent != nil {
+				root = root.parent
+			}
+			callerAssumed := root.fc != nil && root.fc.Arith == "int-assumed"
+			switch {
+			case callerAssumed && fc.Arith == "bv":
+				c.note(fmt.Sprintf("contract of %s (proved over 64-bit vectors) used with mathematical integers: no overflow assumed", strings.ReplaceAll(p.name, "github.com/ipfs/boxo/", "")))
+			case c.mode == "bv" && fc.Arith == "int-assumed":
+				c.note(fmt.Sprintf("contract of %s (proved with machine arithmetic treated as mathematical) used over 64-bit vectors: no overflow assumed inside it", strings.ReplaceAll(p.name, "github.com/ipfs/boxo/", "")))
+			default:
+				c.oblige("error", fmt.Sprintf("%s#call:%s", shortFn(f.fn), p.name), reach, tFalse,
+					fmt.Sprintf("contract of %s is written for arith %s, caller uses %s", p.name, fc.Arith, c.mode))
+			}
 		}
 	}
 	pre := st.clone()
